@@ -292,7 +292,9 @@ class Walker:
                     if v[0] == 'c' and sw.kind == 'bool' and isinstance(v[1], bool):
                         out = v[1]
                     elif v[0] == 'c' and sw.kind == 'int':
-                        out = v[1] if v[1] in sw.edges else 'otherwise'
+                        # `match c { 'x' => .. }` switches on the code point
+                        key = ord(v[1]) if isinstance(v[1], str) and len(v[1]) == 1 else v[1]
+                        out = key if key in sw.edges else 'otherwise'
                     elif v[0] == 'variant':
                         out = v[1]
                 if out is None and self.atom:
